@@ -635,7 +635,13 @@ class AbstractConstraintSet(AbstractConstraint):
         return iter(self._values)
 
     def __add__(self, value):
-        return self.__class__(*(self._values + (value,)))
+        constraintSet = self.__class__(*(self._values + (value,)))
+
+        # a set extended by one more constraint derives from this one
+        if self._values:
+            constraintSet._valueMap.add(self)
+
+        return constraintSet
 
     def __radd__(self, value):
         return self.__class__(*((value,) + self._values))
